@@ -18,7 +18,7 @@ RULE_TEXT = ("merge_generators over 1-4 sources and debounced_sorted_prefix over
              "distinct = abstract trace shape.")
 COMPONENTS = {"real": ["llama_agents.core.iter_utils (merge_generators, debounced_sorted_prefix, Debouncer)"], "stub": [], "sim": ["loop, clock (time.monotonic patched before import)"]}
 ASSUMPTIONS = ["arrival order = order in which the inner generator produced the items", "keys are unique, so 'sorted' is unambiguous"]
-EXPECTED_PROBES = ["none-item", "equal-sort-keys", "merge-tie", "merge-error", "debounce-boundary-arrival", "debounce-late-items", "max-window-flush"]
+EXPECTED_PROBES = ["none-item", "equal-sort-keys", "merge-tie", "merge-error", "debounce-boundary-arrival", "debounce-late-items", "max-window-flush", "burst-extended-past-first-deadline"]
 LEVEL_TEXT = "Seeded exploration of arrival timings around the window boundaries and of task-set iteration order; outputs compared with the sequence semantics in the statement."
 LEVEL_NOTE = "Trusted: simulator loop/clock."
 
@@ -127,7 +127,7 @@ def _run_debounce(tape):
     deb = tape.choice([64 * T, 128 * T], "debounce")
     mx = tape.choice([128 * T, 256 * T, 512 * T], "maxwin")
     n = tape.rng_int(1, 8, "n")
-    gaps = [0, 0, T, 8 * T, deb - T, deb, deb + T, mx - T, mx, mx + T, 2 * mx]
+    gaps = [0, 0, T, 8 * T, deb / 2, deb / 2, deb - T, deb, deb + T, mx - T, mx, mx + T, 2 * mx]
     items = []
     keys = list(range(n))
     order = []
@@ -144,6 +144,37 @@ def _run_debounce(tape):
     sort_key = (lambda ident: ident // 2) if ties else (lambda ident: ident)
     tail = tape.choice([0, T, deb, mx], "tail")
 
+    arr_t: list = []
+    t0 = 0.0
+
+    def admissible_bursts():
+        """sizes the initial burst may have by the documented window: it closes when no item arrived for debounce_seconds or when
+        max_window_seconds have elapsed (counted from the start, or - the docstring's wording - from the first buffered item; both
+        readings are accepted); an arrival within a few loop iterations of the closing instant, or delivered by a loop that was
+        blocked across it, may fall on either side"""
+        eps = 4 * T
+        res = set()
+        n_ = len(arr_t)
+        for mx_from_first in (False, True):
+            def rec(i, complete, mx_deadline):
+                b = min(complete, mx_deadline)
+                if i == n_:
+                    res.add(i)
+                    return
+                a, st_ = arr_t[i]
+                if mx_from_first and i == 0:
+                    mx_deadline = max(mx_deadline, a + mx)
+                    b = min(complete, mx_deadline)
+                if a + eps < b:
+                    rec(i + 1, a + deb, mx_deadline)
+                elif a - st_ - eps > b:
+                    res.add(i)
+                else:
+                    res.add(i)
+                    rec(i + 1, a + deb, mx_deadline)
+            rec(0, deb, mx)
+        return res
+
     async def scenario(world):
         from llama_agents.core.iter_utils import debounced_sorted_prefix
         arrivals = []
@@ -158,11 +189,13 @@ def _run_debounce(tape):
                 for _ in range(hops):
                     await asyncio.sleep(0)
                 arrivals.append(key)
+                arr_t.append((world.clock.t - t0, stall))
                 world.trace.log("produce", key=key)
                 yield {"id": key, "k": sort_key(key)}
             if tail:
                 await asyncio.sleep(tail)
         out = []
+        nonlocal t0
         t0 = world.clock.t
         try:
             async for it in debounced_sorted_prefix(inner(), key=lambda x: x["k"], debounce_seconds=deb, max_window_seconds=mx):
@@ -189,6 +222,13 @@ def _run_debounce(tape):
             head = out[:k]
             return sorted(head) == sorted(arrivals[:k]) and [sort_key(x) for x in head] == sorted(sort_key(x) for x in head) and out[k:] == arrivals[k:]
         ok = any(burst_ok(k) for k in range(len(arrivals) + 1))
+        adm = admissible_bursts()
+        if ok and not any(burst_ok(k) for k in adm):
+            got = [k for k in range(len(arrivals) + 1) if burst_ok(k)]
+            world.violate("C29.burst-cut", f"arrivals {arrivals} at {[round(a, 4) for a, _ in arr_t]} (debounce {deb}, max window {mx}) -> output {out}: explained only by an "
+                          f"initial burst of {got} items, the documented window admits {sorted(adm)}", how="shorter" if max(got) < min(adm) else "longer")
+        if len(adm) == 1 and 0 < min(adm) and len(arr_t) >= 2 and arr_t[min(adm) - 1][0] > deb + 4 * T:
+            world.probe("burst-extended-past-first-deadline")
         if not ok:
             # which kind: did an item that arrived later get out before items of the sorted burst?
             first_unsorted = next((i for i in range(len(out)) if out[:i + 1] != sorted(arrivals[:i + 1]) and out[i] not in arrivals[:i + 1]), None)
